@@ -167,7 +167,7 @@ register(PropertySpec(
              "reachable (the hook raises), through helper calls too"),
         Rule("MODE-BRANCH", modes.rule_mode_branch, 4,
              "hybrid_new and the @predicate wrapper under each constant mode reach only their own arm"),
-        Rule("EVAL-NO-CONTEXT", _lazy("modes", "rule_eval_no_context"), 1,
+        Rule("EVAL-NO-CONTEXT", _lazy("modes", "rule_eval_no_context"), 5,
              "the mode-off switch of an evaluation also sets the expression context (open `with <query>` blocks) aside, so user code that builds a query during evaluation is not bound to the enclosing block's query"),
     ],
     explanation="The mode is a context variable with a closed set of writers, so confinement is a pairing property over "
@@ -195,7 +195,7 @@ register(PropertySpec(
              "comparison operator) are reachable only through the evaluation protocol, hence only under the entries"),
         Rule("MODE-BRANCH", _lazy("modes", "rule_mode_branch"), 4,
              "(shared with C08) with symbolic mode off the @predicate wrapper and @symbol constructor take the concrete arm, whatever else is active"),
-        Rule("EVAL-NO-CONTEXT", _lazy("modes", "rule_eval_no_context"), 1,
+        Rule("EVAL-NO-CONTEXT", _lazy("modes", "rule_eval_no_context"), 5,
              "the mode-off switch of an evaluation also sets the expression context (open `with <query>` blocks) aside, so user code that builds a query during evaluation is not bound to the enclosing block's query"),
     ],
     explanation="User predicates and @symbol constructors consult the ambient mode; the result is mode-independent iff "
@@ -418,6 +418,10 @@ register(PropertySpec(
              "a row is tested for being a duplicate under the truth value it is handed on with (the flag is not assigned between the test and the yield)"),
         Rule("CONCLUSION-VARS-BOUND", _lazy("ruletree", "rule_conclusion_vars_bound"), 1,
              "the variables a conclusion mentions and the fired row lacks are bound (each value) before the conclusion is applied"),
+        Rule("CONCLUSION-VARS-BOUND", _lazy("ruletree", "rule_conclusion_vars_which"), 6,
+             "what a conclusion mentions and the fired row lacks is bound first: variables with or without a domain, flattened expressions (one conclusion per element)"),
+        Rule("INFER-MARK", _lazy("ruletree", "rule_infer_mark"), 5,
+             "a rule marks as inferred the selected variables it concludes on or that have no domain - not a flattened expression, not a domain variable selected next to them"),
     ],
     explanation="Attaching a branch rewires the condition tree in place; evaluation follows the left/right fields, not "
                 "the graph edges, so a selector that is attached in the graph but not stored in its parent's operand slot "
@@ -630,6 +634,8 @@ register(PropertySpec(
              "a variable without a domain ranges over the registry as it is when it is evaluated: nothing is read at declaration, and a registry-backed domain is dropped by the per-evaluation reset (which reaches selected-only variables)"),
         Rule("REG-NO-PROBE", _lazy("registry", "rule_reg_no_probe"), 1,
              "registration does not look attributes up on the instance before its __init__ has run"),
+        Rule("REG-LIVE", _lazy("registry", "rule_reg_live_conclusions"), 1,
+             "the per-evaluation reset reaches variables that only a conclusion mentions"),
     ],
     explanation="Registry discipline is ownership: a single writer, on a must-pass-through path of the concrete "
                 "constructor arm, keyed by the runtime class; the symbolic arm provably (call-graph closure) cannot "
@@ -842,6 +848,10 @@ register(PropertySpec(
              "the elements of a flattened collection are told apart by identity: equality of wrapped values is the identifier, and the identifier never derives from the value"),
         Rule("VALUE-TRUTH", _lazy("values", "rule_value_truth"), 10,
              "a flattened element used as a value (selected, compared) is handed on whatever its truthiness"),
+        Rule("CONCLUSION-VARS-BOUND", _lazy("ruletree", "rule_conclusion_vars_which"), 6,
+             "what a conclusion mentions and the fired row lacks is bound first: variables with or without a domain, flattened expressions (one conclusion per element)"),
+        Rule("INFER-MARK", _lazy("ruletree", "rule_infer_mark"), 5,
+             "a rule marks as inferred the selected variables it concludes on or that have no domain - not a flattened expression, not a domain variable selected next to them"),
     ],
     explanation="UNNEST is 'one row per inner element, all other variables keep the binding that produced it': the "
                 "first half is a path property of one small generator, the second is the BIND-KEEP provenance rule at "
@@ -951,6 +961,8 @@ register(PropertySpec(
              "the operators that evaluate shareable operands tell the operand which of its parents is evaluating it, on every path to the evaluation"),
         Rule("DUP-STABLE", _lazy("lazy", "rule_dup_stable"), 1,
              "a domain that lists an object twice yields it once in every pass (one inferred instance per assignment, the same number in every evaluation)"),
+        Rule("INFER-MARK", _lazy("ruletree", "rule_infer_mark"), 5,
+             "a rule marks as inferred the selected variables it concludes on or that have no domain - not a flattened expression, not a domain variable selected next to them"),
     ],
     explanation="All clauses are weak but necessary: arguments evaluated under the current binding, one construction "
                 "per combination, no retrieval instead of construction for inferred variables, existing objects passed "
